@@ -516,6 +516,7 @@ type T struct {
 	rawLog   *log.Logger
 	s        bitStream
 	draws    int
+	attempts int // Draw calls started (completed or not)
 	refDraws []any
 	mu       sync.RWMutex
 	failed   stopTest
